@@ -1,0 +1,17 @@
+//go:build verif
+
+package elasticsearch
+
+import "github.com/ozontech/file.d/pipeline"
+
+// Exported wrappers for the verification harness (C19): the batch payload builder.
+
+// VerifOut calls the unexported out() with the given worker data.
+func (p *Plugin) VerifOut(wd *pipeline.WorkerData, b *pipeline.Batch) error { return p.out(wd, b) }
+
+// VerifSetTime fixes the value of the @time placeholder (maintenance() sets it from the clock).
+func (p *Plugin) VerifSetTime(t string) {
+	p.mu.Lock()
+	p.time = t
+	p.mu.Unlock()
+}
